@@ -55,6 +55,37 @@ fn main() {
         let c = qbice_stable_hash::Compact128::from(*id);
         if c.to_u128() != *id { report_found("Compact128 round trip", &format!("{id:#x}"), &format!("{:#x}", c.to_u128()), "same"); }
     }
-    println!("DIGEST {digest:#034x} types={}", u.len());
-    report_none(u.len() as u64);
+    // the string hash itself: names that differ in ONE byte, or by swapping two ADJACENT bytes, at every position of names of
+    // every length up to 40 (all alignments w.r.t. the 8-byte blocks and the tail), several byte pairs -- must get distinct ids
+    let mut names_checked = 0u64;
+    {
+        use qbice_stable_type_id::StableTypeID;
+        let id_of = |b: &[u8]| -> u128 { let st: &'static str = Box::leak(String::from_utf8(b.to_vec()).unwrap().into_boxed_str()); StableTypeID::from_unique_type_name(st).as_u128() };
+        let base: Vec<u8> = (0..40u8).map(|i| b'a' + (i % 23)).collect();
+        for len in 1..=40usize {
+            let name: Vec<u8> = base[..len].to_vec();
+            let id0 = id_of(&name);
+            digest = digest.rotate_left(7) ^ id0;
+            for pos in 0..len {
+                for (x, y) in [(b'A', b'B'), (b'L', b'R'), (b'0', b'@'), (b'1', b'2')] {
+                    // single-byte change
+                    let mut n1 = name.clone(); n1[pos] = x;
+                    let mut n2 = name.clone(); n2[pos] = y;
+                    let (i1, i2) = (id_of(&n1), id_of(&n2));
+                    names_checked += 2;
+                    if i1 == i2 { report_found("two distinct type names share a stable type id", &format!("{:?} vs {:?}", String::from_utf8_lossy(&n1), String::from_utf8_lossy(&n2)), &format!("{i1:#034x} for both"), "distinct ids"); }
+                    // adjacent swap
+                    if pos + 1 < len {
+                        let mut s1 = name.clone(); s1[pos] = x; s1[pos + 1] = y;
+                        let mut s2 = name.clone(); s2[pos] = y; s2[pos + 1] = x;
+                        let (j1, j2) = (id_of(&s1), id_of(&s2));
+                        names_checked += 2;
+                        if j1 == j2 { report_found("two distinct type names share a stable type id", &format!("{:?} vs {:?}", String::from_utf8_lossy(&s1), String::from_utf8_lossy(&s2)), &format!("{j1:#034x} for both"), "distinct ids"); }
+                    }
+                }
+            }
+        }
+    }
+    println!("DIGEST {digest:#034x} types={} names={names_checked}", u.len());
+    report_none(u.len() as u64 + names_checked);
 }
